@@ -540,6 +540,15 @@ def _r4_r5(chk: Check) -> None:
         n += 1
         ce = [c for c in child_events(F, p, selft, stt) if c[2].kind == 'call']
         if ce:
+            last = freeze(ce[-1][2].result)
+            ret_ = p.outcome[1]
+            # results = [line.eval(state) for line in self.lines]; return results[-1] if results else None
+            comp_ = ret_[1] if isinstance(ret_, tuple) and ret_[:1] == ('sub',) and len(ret_) == 3 and ret_[2] == ('const', -1) else None
+            if isinstance(comp_, tuple) and comp_[:2] == ('comp', 'list') and comp_[2] == last and len(comp_[3]) == 1 and not comp_[3][0][2]:
+                continue                # the last element of the list of all statement values, in order
+            if ret_ == ('const', None) and any(isinstance(c, tuple) and c[:2] == ('comp', 'list') and c[2] == last and not v
+                                               for c, v, _ in p.assumptions):
+                continue                # ... and None when that list is empty
             if p.outcome[1] != freeze(ce[-1][2].result):
                 bad.append('with statements present the program yields %s, not the value of the last statement' % show(p.outcome[1]))
         elif p.outcome[1] != ('const', None):
